@@ -237,7 +237,8 @@ func runC15(c *Ctx) {
 		for i := range vs {
 			in = append(in, L(S(names[i]), Z(vs[i])))
 		}
-		c.Case("toptext", L(S("toptext"), L(in...), S(unit), S(out), Rat(ratio)), c15TopText(names, vs, unit, out, ratio), true,
+		duration := PickI(c.R, []int64{0, 0, 1000000000, 10000000000, 123456789, 1, 3600000000000})
+		c.Case("toptext", L(S("toptext"), L(in...), S(unit), S(out), Rat(ratio), Z(duration)), c15TopText(names, vs, unit, out, ratio, duration), true,
 			"op:toptext", fmt.Sprintf("ratio:%v", ratio))
 	}
 	// CommonValueType over lists of (type, unit)
@@ -308,13 +309,13 @@ func runC15(c *Ctx) {
 
 // c15TopText renders the text report of a profile with one single-frame sample per name and
 // returns its rows: flat label, flat%, sum%, cum label, cum%, name.
-func c15TopText(names []string, vals []int64, unit, out string, ratio float64) (res Term) {
+func c15TopText(names []string, vals []int64, unit, out string, ratio float64, duration int64) (res Term) {
 	defer func() {
 		if r := recover(); r != nil {
 			res = L(S("panic"), S(fmt.Sprint(r)))
 		}
 	}()
-	p := &profile.Profile{SampleType: []*profile.ValueType{{Type: "v", Unit: unit}}}
+	p := &profile.Profile{SampleType: []*profile.ValueType{{Type: "v", Unit: unit}}, DurationNanos: duration}
 	for i, n := range names {
 		f := &profile.Function{ID: uint64(i + 1), Name: n, SystemName: n}
 		l := &profile.Location{ID: uint64(i + 1), Line: []profile.Line{{Function: f}}} // no address, no line: the entry is named by the function
@@ -330,9 +331,13 @@ func c15TopText(names []string, vals []int64, unit, out string, ratio float64) (
 	}
 	var rows []Term
 	started := false
+	legend := ""
 	for _, ln := range strings.Split(buf.String(), "\n") {
 		f := strings.Fields(ln)
 		if !started {
+			if strings.HasPrefix(ln, "Duration: ") {
+				legend = ln
+			}
 			started = len(f) == 5 && f[0] == "flat" && f[1] == "flat%"
 			continue
 		}
@@ -341,5 +346,5 @@ func c15TopText(names []string, vals []int64, unit, out string, ratio float64) (
 		}
 		rows = append(rows, Ss(f))
 	}
-	return L(S("ok"), L(rows...))
+	return L(S("ok"), L(rows...), S(legend))
 }
